@@ -9,7 +9,16 @@ import (
 	"github.com/zen-eth/shisui/storage"
 )
 
+// C04 on a pruned store: whatever the store still holds after a pruning put reads back byte for byte
+// (the same step as C06.pebble_radius, whose body asserts it).
+//
+//verif:harness C04.retained_readable_after_prune unwind=60 timeout=240/600 wall=1200/3600
+//verif:use kv
+//verif:param N=2/3
+func vhC04RetainedReadable() { vhPebblePruneStep(false) }
+
 func init() {
+	vsRegister("C04.retained_readable_after_prune", vhC04RetainedReadable)
 	vsRegister("C04.put_get_step", vhC04PutGetStep)
 	vsRegister("C04.key_injective", vhC04KeyInjective)
 }
